@@ -541,3 +541,56 @@ func checkLoaderShape(rep *core.Report, r4 *core.RuleRun) {
 	}
 	r4.Check(called >= 1, name+":invoked", loader.Pos(), fmt.Sprintf("%d call site(s) in package main", called), "loader is never invoked from the collector")
 }
+
+// checkModelKeys: every entry of the built-in information model is keyed by its own element id and no key occurs
+// twice in the literal (Go accepts duplicate struct keys in a map literal; the later entry silently wins). The
+// decoders report the FieldID of the entry found under (enterprise, element id), so a transposed key makes one
+// element decode as another. Shared by C03, C06 and C20.
+func checkModelKeys(rep *core.Report, rr *core.RuleRun) {
+	pk := rep.Prog.Pkg("ipfix")
+	if pk == nil {
+		rr.Undecided("package:ipfix", token.NoPos, "package ipfix not found")
+		return
+	}
+	e, mpos := varDeclValue(pk, "InfoModel")
+	lit, ok := e.(*ast.CompositeLit)
+	if !ok {
+		rr.Undecided("var:ipfix.InfoModel", mpos, "built-in table is not a composite literal")
+		return
+	}
+	info := pk.TypesInfo
+	seen := map[[2]int64]bool{}
+	bad, n := 0, 0
+	for _, el := range lit.Elts {
+		kv, ok := el.(*ast.KeyValueExpr)
+		if !ok {
+			continue
+		}
+		klit, ok1 := kv.Key.(*ast.CompositeLit)
+		vlit, ok2 := kv.Value.(*ast.CompositeLit)
+		if !ok1 || !ok2 {
+			continue
+		}
+		kf, vf := structLitFields(info, klit), structLitFields(info, vlit)
+		pen, okp := constInt(info, kf["EnterpriseNo"])
+		id, oki := constInt(info, kf["ElementID"])
+		fid, okf := constInt(info, vf["FieldID"])
+		if !okp || !oki || !okf {
+			continue
+		}
+		n++
+		key := fmt.Sprintf("InfoModel[%d,%d]", pen, id)
+		if seen[[2]int64{pen, id}] {
+			bad++
+			rr.Fail(key+":dup", el.Pos(), fmt.Sprintf("the key (%d,%d) occurs twice in the built-in table: the later entry replaces the earlier one, so element %d is decoded as whatever the later row says", pen, id, id))
+		}
+		seen[[2]int64{pen, id}] = true
+		if fid != id {
+			bad++
+			rr.Fail(key+":FieldID", el.Pos(), fmt.Sprintf("entry keyed by element id %d carries FieldID %d: records using element %d are reported under id %d", id, fid, id, fid))
+		}
+	}
+	if bad == 0 {
+		rr.Check(n >= 300, "InfoModel:keys", mpos, fmt.Sprintf("%d entries, each keyed once by its own element id", n), fmt.Sprintf("only %d constant entries found in the built-in table", n))
+	}
+}
